@@ -17,6 +17,7 @@ Headline theorems about the model `Irismod.Farm`, for every history.
 -/
 import Irismod.Proofs.FarmWitness
 import Irismod.Proofs.FarmFairQ
+import Irismod.Proofs.FarmCpGuards
 import Mathlib.Algebra.Order.Field.Rat
 import Mathlib.Tactic.FieldSimp
 
@@ -46,11 +47,13 @@ theorem refund_once_run (s0 : State) (ops : List Op) (hg : C05.Genesis s0) (hh :
   ghost_refundOnce (inv_run ops s0 (inv_genesis hg hh)).core.ghost
 
 /-- the refund itself: an accepted destroy (or a due end-block refund) returns exactly the
-remaining budget — the module account pays `Σ remaining` to the creator and the rules are
-zeroed (`zeroRules` books `refunded += remaining`) -/
+remaining budget — the module account pays `Σ remaining` to the creator (for a community-pool
+farm: to the distribution module account, and the fee pool's community pool is credited with the
+same coins) and the rules are zeroed (`zeroRules` books `refunded += remaining`) -/
 theorem refund_pays_remaining {s s' : State} {id : PoolId} {p : Pool} (h : refund s id p = (s', none)) :
-    ∃ s1 p1, updatePool (dequeue s id p.endH) id p 0 true = (s1, .ok p1) ∧
-      sendAll (zeroed s1 id p1) farmAcc p1.creator (refundCoins p1.rules) = .ok s' ∧
+    ∃ s1 p1 s2, updatePool (dequeue s id p.endH) id p 0 true = (s1, .ok p1) ∧
+      sendAll (zeroed s1 id p1) farmAcc p1.creator (refundCoins p1.rules) = .ok s2 ∧
+      s' = creditIf (p1.creator == distrAcc) s2 (refundCoins p1.rules) ∧
       ∀ d, sumOf (refundCoins p1.rules) d = C05.remainingIn d p1.rules := by
   rcases refund_cases s id p with ⟨s1, e, _, hr⟩ | ⟨s1, p1, hu, hr⟩
   · rw [hr] at h; cases h
@@ -60,7 +63,136 @@ theorem refund_pays_remaining {s s' : State} {id : PoolId} {p : Pool} (h : refun
     · rw [hr] at h
       simp only [Prod.mk.injEq, and_true] at h
       subst h
-      exact ⟨s1, p1, hu, hs, fun d => sumOf_refundCoins _ d⟩
+      exact ⟨s1, p1, s2, hu, hs, rfl, fun d => sumOf_refundCoins _ d⟩
+
+/-- **refund to the community pool**: when the creator is the distribution module account (a farm
+created from the community pool), an accepted refund moves exactly the remaining budget from the
+farm module account to the distribution module account and credits the fee pool's community pool
+with the same coins — nothing goes to any user account. -/
+theorem refund_community_pool {s s' : State} {id : PoolId} {p : Pool} (h : refund s id p = (s', none))
+    (hc : p.creator = distrAcc) :
+    ∃ s1 p1, updatePool (dequeue s id p.endH) id p 0 true = (s1, .ok p1) ∧
+      (∀ d, s'.bank.balOf distrAcc d = s.bank.balOf distrAcc d + C05.remainingIn d p1.rules) ∧
+      (∀ d, C05.cpoolOf s' d = C05.cpoolOf s d + C05.remainingIn d p1.rules * decUnit) ∧
+      (∀ d, s'.bank.balOf farmAcc d + C05.remainingIn d p1.rules = s1.bank.balOf farmAcc d) ∧
+      (∀ a d, a ≠ farmAcc → a ≠ collectorAcc → a ≠ distrAcc → s'.bank.balOf a d = s.bank.balOf a d) := by
+  obtain ⟨s1, p1, s2, hu, hs, rfl, hsum⟩ := refund_pays_remaining h
+  have ok := updatePool_ok hu
+  have hcre : p1.creator = distrAcc := by rw [(updOk_fields ok).1]; exact hc
+  rw [hcre] at hs ⊢
+  have hfd : farmAcc ≠ distrAcc := by decide
+  obtain ⟨x1, x2, x3⟩ := sendCoins_deltas _ _ _ _ _ hfd (sendAll_ok hs).2
+  have b := (sendAll_ok hs).1
+  refine ⟨s1, p1, hu, ?_, ?_, ?_, ?_⟩
+  · intro d
+    show s2.bank.balOf distrAcc d = _
+    rw [x2 d, hsum d]
+    show s1.bank.balOf distrAcc d + _ = _
+    rw [ok.others distrAcc d (by decide) (by decide)]; rfl
+  · intro d
+    unfold C05.cpoolOf
+    show cpGet (if (distrAcc == distrAcc) = true then cpAddCoins s2.cp.pool (refundCoins p1.rules) else s2.cp.pool) d = _
+    simp only [beq_self_eq_true, if_true]
+    rw [cpGet_addCoins, hsum d, b.cp]
+    show cpGet s1.cp.pool d + _ = _
+    rw [ok.cp]; rfl
+  · intro d
+    show s2.bank.balOf farmAcc d + _ = _
+    have := x1 d
+    rw [hsum d] at this
+    exact this
+  · intro a d h1 h2 h3
+    show s2.bank.balOf a d = _
+    rw [x3 a d h1 h3]
+    show s1.bank.balOf a d = _
+    rw [ok.others a d h1 h2]; rfl
+
+/-! ### (a'') community-pool farms: each escrow is settled exactly once -/
+
+/-- **every tally ends in one of three ways, never half-way**: in every state of the bundles
+gov's EndBlocker on a proposal in its voting period does not abort, the proposal's escrow info is
+there, and the block ends with the handler executed and the info deleted, or with the escrow
+refunded (handler failed, or tally rejected). -/
+theorem cp_tally_cases (s : State) (pid : Nat) (pr : Proposal) (passes : Bool) (hi : Inv s) (hc : CpInv s)
+    (hp : AMap.get? s.cp.props pid = some pr) (hv : pr.status = .voting) :
+    ∃ e s1, AMap.get? s.cp.escrow pid = some e ∧ refundDeposit s pr = .ok s1 ∧
+      (govVote s pid passes).2 = false ∧ TallyEnd s pid pr e passes s1 (govVote s pid passes).1 := by
+  obtain ⟨e, s1, he, h1, hna, hend⟩ := govTally_cases passes hc hi.cpu hp (alive_of_voting hv)
+  have : govVote s pid passes = govTally s pid pr passes := by
+    unfold govVote; rw [hp]; simp only; rw [if_pos hv]
+  rw [this]
+  exact ⟨e, s1, he, h1, hna, hend⟩
+
+/-- **pass → pool budget** (see `Proofs.Farm.tally_executed`): exactly the escrowed funds become
+the budget of the new pool; escrow collector −, farm module account +, distribution account and
+community pool untouched; the info is deleted. -/
+theorem cp_pass_funds_pool {s s1 s2 : State} {pid : Nat} {pr : Proposal} {e : Escrow} (hi : Inv s) (hc : CpInv s)
+    (hp : AMap.get? s.cp.props pid = some pr) (he : AMap.get? s.cp.escrow pid = some e)
+    (h1 : refundDeposit s pr = .ok s1) (hh : cpHandler s1 pr.content = .ok s2) :
+    let s' := delEscrow (setProp s2 pid { pr with status := .passed, deposit := 0 }) pid
+    AMap.get? s'.cp.escrow pid = none ∧
+    (∃ pr', AMap.get? s'.cp.props pid = some pr' ∧ pr'.status = .passed) ∧
+    (∃ p, getPool s' (poolIdOf (s.seq + 1)) = some p ∧ p.creator = distrAcc ∧ p.editable = false ∧ p.start = s.height ∧
+      ∀ d, C05.remainingIn d p.rules = C05.escrowHolds d e) ∧
+    (∀ d, s'.bank.balOf escrowAcc d + C05.escrowHolds d e = s.bank.balOf escrowAcc d) ∧
+    (∀ d, s'.bank.balOf farmAcc d = s.bank.balOf farmAcc d + C05.escrowHolds d e) ∧
+    (∀ d, s'.bank.balOf distrAcc d = s.bank.balOf distrAcc d) ∧ (∀ d, C05.cpoolOf s' d = C05.cpoolOf s d) :=
+  tally_executed hc hi.cpu hp he h1 hh
+
+/-- **reject / failed handler → back to proposer and community pool** (see
+`Proofs.Farm.tally_refunded`). -/
+theorem cp_refunded {s s1 : State} {pid : Nat} {pr : Proposal} {e : Escrow} (st : PStatus) (hi : Inv s) (hc : CpInv s)
+    (hp : AMap.get? s.cp.props pid = some pr) (he : AMap.get? s.cp.escrow pid = some e)
+    (h1 : refundDeposit s pr = .ok s1) :
+    let s' := refundEscrow (setProp s1 pid { pr with status := st, deposit := 0 }) pid e
+    AMap.get? s'.cp.escrow pid = none ∧
+    (∃ pr', AMap.get? s'.cp.props pid = some pr' ∧ pr'.status = st) ∧
+    (∀ d, s'.bank.balOf escrowAcc d + C05.escrowHolds d e = s.bank.balOf escrowAcc d) ∧
+    (∀ d, s'.bank.balOf e.proposer d = s.bank.balOf e.proposer d + sumOf e.selfBond d + (if d = depositDenom then pr.deposit else 0)) ∧
+    (∀ d, s'.bank.balOf distrAcc d = s.bank.balOf distrAcc d + sumOf e.applied d) ∧
+    (∀ d, C05.cpoolOf s' d = C05.cpoolOf s d + sumOf e.applied d * decUnit) ∧
+    (∀ d, s'.bank.balOf farmAcc d = s.bank.balOf farmAcc d) ∧ s'.pools = s.pools :=
+  tally_refunded st hc hi.cpu hp he h1
+
+/-- **failed minimum deposit → back to proposer and community pool**. -/
+theorem cp_fail_deposit_refunded {s : State} {pid : Nat} {pr : Proposal} (hi : Inv s) (hc : CpInv s)
+    (hp : AMap.get? s.cp.props pid = some pr) (hd : pr.status = .deposit) :
+    ∃ e, AMap.get? s.cp.escrow pid = some e ∧
+    let s' := (govFailDeposit s pid).1
+    AMap.get? s'.cp.escrow pid = none ∧ AMap.get? s'.cp.props pid = none ∧
+    (∀ d, s'.bank.balOf escrowAcc d + C05.escrowHolds d e = s.bank.balOf escrowAcc d) ∧
+    (∀ d, s'.bank.balOf e.proposer d = s.bank.balOf e.proposer d + sumOf e.selfBond d + (if d = depositDenom then pr.deposit else 0)) ∧
+    (∀ d, s'.bank.balOf distrAcc d = s.bank.balOf distrAcc d + sumOf e.applied d) ∧
+    (∀ d, C05.cpoolOf s' d = C05.cpoolOf s d + sumOf e.applied d * decUnit) :=
+  failDeposit_refunded hc hi.cpu hp hd
+
+/-- **exactly once**: for a proposal gov has finished with (or never had) every further pass /
+reject / failed-deposit processing leaves the state as it is — the same proposal passed or
+rejected twice, a reject after a pass, … settle nothing a second time. -/
+theorem cp_settled_once {s : State} (pid : Nat) (hc : CpInv s)
+    (h : ∀ pr, AMap.get? s.cp.props pid = some pr → C05.alive pr = false) :
+    apply s (.cpPass pid) = s ∧ apply s (.cpReject pid) = s ∧ apply s (.cpFailDeposit pid) = s := by
+  obtain ⟨h1, h2⟩ := settled_once pid hc h
+  exact ⟨h1 true, h1 false, h2⟩
+
+/-- **the swallowed errors of `refundEscrow` never occur**: in every state of the bundles the
+refund of an escrow info on record runs to completion — it cannot stop after the self-bond leg
+with the info still in place (which a second hook call would refund again). -/
+theorem refund_escrow_never_partial {s : State} {pid : Nat} {e : Escrow} (hi : Inv s) (hc : CpInv s)
+    (he : AMap.get? s.cp.escrow pid = some e) :
+    AMap.get? (refundEscrow s pid e).cp.escrow pid = none ∧
+    ∀ d, (refundEscrow s pid e).bank.balOf escrowAcc d + C05.escrowHolds d e = s.bank.balOf escrowAcc d := by
+  have r := refundEscrow_done (pid := pid) (hi.cpu.1 pid e he) (fun d => holds_le_escrow hc he d)
+  exact ⟨by rw [r.esc]; exact get?_erase_self _ _, r.escrow⟩
+
+/-- **the model's handler guards are vacuous**: for a content that passed `ValidateBasic` the three
+guards of the model's `cpHandler` do not fire (the merged total of two coin lists sorted by denom
+is sorted by denom and, by the length check of `ValidateFund`, not empty) — the handler of the
+model fails exactly where the Go handler does. -/
+theorem cp_handler_guards_never_fire (c : Content) (hd : c.desc.utf8ByteSize ≤ 280) (hs : sortedCoins c.applied = true)
+    (hne : c.applied ≠ []) (hlen : c.applied.length + c.selfBond.length = (totalOf c).length) :
+    ¬ (c.desc.utf8ByteSize > 280) ∧ totalOf c ≠ [] ∧ sortedCoins (totalOf c) = true :=
+  cpHandler_guards_never_fire c hd hs hne hlen
 
 /-! ### (b) release = per block × span iff someone is staked -/
 
